@@ -86,8 +86,8 @@ func (h *HistGen) fieldValue() interface{} {
 		return float64(g.Intn(8))
 	case 8:
 		return float64(g.Intn(16)) / 2
-	case 9:
-		if g.Chance(0.3) {
+	case 9, 17:
+		if g.Chance(0.25) {
 			return float64(-1 - g.Intn(3))
 		}
 		return uint64(g.Intn(8))
@@ -124,7 +124,8 @@ func (h *HistGen) jsonSafe(v interface{}) interface{} {
 			return "s"
 		}
 	case time.Time:
-		if x.Year() < 1 || x.Year() > 9999 {
+		// RFC 3339 text cannot carry a year outside 1..9999 nor a zone offset with seconds
+		if _, off := x.Zone(); x.Year() < 1 || x.Year() > 9999 || off%60 != 0 {
 			return time.Unix(1700000000, 5).UTC()
 		}
 	case []interface{}:
@@ -264,7 +265,7 @@ func (h *HistGen) crit(depth int) *Crit {
 	case 0, 1:
 		return &Crit{Kind: "cmp", Op: "OEq", Field: f, Val: h.operand()}
 	case 2:
-		return &Crit{Kind: "not", A: &Crit{Kind: "cmp", Op: "OEq", Field: f, Val: h.operand()}} // Neq
+		return &Crit{Kind: "neq", Field: f, Val: h.operand()}
 	case 3, 4:
 		return &Crit{Kind: "cmp", Op: "OGt", Field: f, Val: h.operand()}
 	case 5:
@@ -286,6 +287,11 @@ func (h *HistGen) crit(depth int) *Crit {
 			vs := make([]Operand, n)
 			for i := range vs {
 				vs[i] = Operand{Lit: pickOf(g, []interface{}{int(g.Intn(6)), int64(g.Intn(6)), float64(g.Intn(6)), uint8(g.Intn(6))})}
+				if i > 0 && g.Chance(0.3) {
+					z := g.Intn(6) // the same number again, possibly under another Go kind
+					vs[i-1] = Operand{Lit: int(z)}
+					vs[i] = Operand{Lit: pickOf(g, []interface{}{int(z), float64(z), uint64(z)})}
+				}
 			}
 			return &Crit{Kind: "contains", Field: "arr", Vals: vs}
 		}
@@ -298,13 +304,17 @@ func (h *HistGen) crit(depth int) *Crit {
 	case 11:
 		return &Crit{Kind: "exists", Field: f}
 	case 12:
-		return &Crit{Kind: "not", A: &Crit{Kind: "exists", Field: f}}
+		return &Crit{Kind: "notexists", Field: f}
 	case 13:
 		return &Crit{Kind: "like", Field: pickOf(g, []string{"s", "a", "b"}), Pat: pickOf(g, likePats)}
 	case 14:
 		return &Crit{Kind: "fun", Fun: g.Intn(6)}
 	default:
-		return &Crit{Kind: "cmp", Op: pickOf(g, []string{"OGt", "OLt", "OGtEq", "OLtEq", "OEq"}), Field: f, Val: Operand{Lit: int(g.Intn(8))}}
+		lit := int(g.Intn(8))
+		if g.Chance(0.25) {
+			lit = -1 - g.Intn(3)
+		}
+		return &Crit{Kind: "cmp", Op: pickOf(g, []string{"OGt", "OLt", "OGtEq", "OLtEq", "OEq"}), Field: f, Val: Operand{Lit: lit}}
 	}
 }
 
@@ -330,6 +340,28 @@ func (h *HistGen) query(coll string, allowWindow, allowSort bool) QSpec {
 	q := QSpec{Coll: coll}
 	h.cur = h.colls[coll]
 	defer func() { h.cur = nil }()
+	if h.cur != nil && len(h.cur.indexes) > 0 && allowSort && g.Chance(0.22) {
+		// a comparison on an indexed field, sorted by that field first (index range scan + elided or kept sort)
+		f := pickOf(g, h.cur.indexes)
+		c := &Crit{Kind: "cmp", Op: pickOf(g, []string{"OGt", "OGtEq", "OLt", "OLtEq", "OGt"}), Field: f, Val: Operand{Lit: pickOf(g, []interface{}{int(g.Intn(6)), -1, nil, "a", float64(2.5)})}}
+		if g.Chance(0.3) {
+			c = &Crit{Kind: "and", A: c, B: h.crit(1)}
+		}
+		c.countOps(h.crits)
+		q.Steps = append(q.Steps, QStep{Kind: "where", C: c})
+		opts := []SortOpt{{f, pickOf(g, []int{-1, 1})}}
+		if g.Chance(0.5) {
+			opts = append(opts, SortOpt{pickOf(g, []string{"b", "x", "s", "_id", "a"}), pickOf(g, []int{-1, 1})})
+		}
+		q.Steps = append(q.Steps, QStep{Kind: "sort", Opts: opts})
+		if allowWindow && g.Chance(0.3) {
+			q.Steps = append(q.Steps, QStep{Kind: "skip", N: pickOf(g, []int{1, 2, 3})})
+		}
+		if allowWindow && g.Chance(0.3) {
+			q.Steps = append(q.Steps, QStep{Kind: "limit", N: pickOf(g, []int{1, 2, 3})})
+		}
+		return q
+	}
 	if g.Chance(0.75) {
 		c := h.crit(3)
 		c.countOps(h.crits)
@@ -461,7 +493,7 @@ func (h *HistGen) next() *Op {
 		}
 		return &Op{Kind: "Reopen"}
 	}
-	if h.cfg.Focus == "index" && g.Chance(0.10) {
+	if (h.cfg.Focus == "index" && g.Chance(0.10)) || (h.cfg.Focus == "sort" && g.Chance(0.07)) {
 		return &Op{Kind: "CreateIndex", Coll: c, Field: pickOf(g, []string{"a", "a", "b", "x", "xy", "n", "n.a", "s", "t"})}
 	}
 	if h.cfg.Focus == "sort" && g.Chance(0.25) {
@@ -492,6 +524,16 @@ func (h *HistGen) next() *Op {
 		default:
 			return &Op{Kind: "Update", Q: q, KVs: h.updateMap()}
 		}
+	}
+	if h.cfg.Focus == "ids" && g.Chance(0.08) {
+		return &Op{Kind: "Update", Q: h.query(c, false, false), KVs: map[string]interface{}{"_id": pickOf(g, idPool), "a": int64(g.Intn(5))}}
+	}
+	if h.cfg.Focus == "bulk" && g.Chance(0.08) {
+		q := QSpec{Coll: c, Steps: []QStep{{Kind: "sort", Opts: []SortOpt{{pickOf(g, []string{"a", "b", "x"}), pickOf(g, []int{-1, 1})}, {"_id", 1}}}, {Kind: "skip", N: 1 + g.Intn(3)}}}
+		if g.Bool() {
+			return &Op{Kind: "Delete", Q: q}
+		}
+		return &Op{Kind: "UpdateFunc", Q: q, U: h.updater()}
 	}
 	if h.cfg.Focus == "ids" && g.Chance(0.25) {
 		switch g.Intn(4) {
@@ -698,8 +740,11 @@ func newEnv(backend string) (*Env, error) {
 }
 
 func (env *Env) destroy() {
-	if env.db != nil {
-		env.db.Close()
+	if env.db != nil && !env.wedged {
+		// Close can block behind a leaked transaction: do not wait for it forever
+		if !withDeadline(10*time.Second, func() { env.db.Close() }) {
+			env.wedged = true
+		}
 	}
 	os.RemoveAll(env.dir)
 	os.RemoveAll(env.tmpdir)
@@ -744,6 +789,25 @@ func runHistory(g *Gen, cfg HistCfg, backend string, dumpEvery bool) (*HistResul
 			}
 		}
 		res.Steps = append(res.Steps, StepRec{Op: op, Res: r, Dump: dump})
+	}
+	if cfg.AllowClose {
+		// after Close every public operation must return an error (never panic, never block): one of each
+		res.Steps = append(res.Steps, StepRec{Op: &Op{Kind: "Close"}, Res: (&Op{Kind: "Close"}).exec(env)})
+		c := pickOf(g, h.names)
+		for _, op := range []*Op{
+			{Kind: "Count", Q: QSpec{Coll: c}}, {Kind: "Count", Q: h.query(c, true, true)}, {Kind: "FindAll", Q: QSpec{Coll: c}},
+			{Kind: "Exists", Q: QSpec{Coll: c}}, {Kind: "FindFirst", Q: QSpec{Coll: c}}, {Kind: "ForEach", Q: QSpec{Coll: c}, Stop: -1, Mode: 2},
+			{Kind: "FindById", Coll: c, Id: idPool[0]}, {Kind: "HasCollection", Coll: c}, {Kind: "ListCollections"}, {Kind: "HasIndex", Coll: c, Field: "a"},
+			{Kind: "ListIndexes", Coll: c}, {Kind: "CreateCollection", Coll: "zz"}, {Kind: "DropCollection", Coll: c},
+			{Kind: "Insert", Coll: c, Docs: []map[string]interface{}{h.doc(idPool[3])}}, {Kind: "Save", Coll: c, Docs: []map[string]interface{}{h.doc(idPool[3])}},
+			{Kind: "DeleteById", Coll: c, Id: idPool[0]}, {Kind: "UpdateById", Coll: c, Id: idPool[0], U: Updater{Kind: "funid"}},
+			{Kind: "ReplaceById", Coll: c, Id: idPool[0], Docs: []map[string]interface{}{h.doc(idPool[0])}},
+			{Kind: "Update", Q: QSpec{Coll: c}, KVs: map[string]interface{}{"a": 1}}, {Kind: "UpdateFunc", Q: QSpec{Coll: c}, U: Updater{Kind: "funid"}},
+			{Kind: "Delete", Q: QSpec{Coll: c}}, {Kind: "CreateIndex", Coll: c, Field: "a"}, {Kind: "DropIndex", Coll: c, Field: "a"},
+		} {
+			h.dist[op.Kind]++
+			res.Steps = append(res.Steps, StepRec{Op: op, Res: op.exec(env)})
+		}
 	}
 	return res, h
 }
